@@ -113,6 +113,9 @@ func (c19) Plan(tier string, seed int64) []core.Scenario {
 	for def := 0; def < 8; def += 5 {
 		out = append(out, core.Sc("derived").WithN("def", def))
 	}
+	for part := 0; part < 4; part++ {
+		out = append(out, core.Sc("bigset").WithN("part", part))
+	}
 	for _, tr := range []string{"ws", "http"} {
 		for def := 0; def < 8; def += 3 {
 			out = append(out, core.Sc("e2e").WithS("transport", tr).WithN("def", def))
@@ -136,6 +139,8 @@ func (p c19) Run(sc core.Scenario) core.Result {
 		p.runSharedDefaults(sc, r)
 	case "derived":
 		p.runDerived(sc, r)
+	case "bigset":
+		p.runBigSet(sc, r)
 	}
 	return r.Result()
 }
@@ -246,87 +251,89 @@ func (p c19) runHandler(sc core.Scenario, r *core.R) {
 		{"query", "", "qtok", "qtok", false, false},
 		{"header+query", "Bearer htok", "qtok", "htok", false, false},
 	}
-	for _, f := range forms {
-		var verifierSaw []string
-		var nextRan int
-		var nextCtx context.Context
-		h := &auth.Handler{
-			Verify: func(ctx context.Context, token string) ([]auth.Permission, error) {
-				verifierSaw = append(verifierSaw, token)
-				if v == 8 {
-					return nil, errors.New("rejected")
+	for _, hm := range []string{"POST", "GET", "PUT", "HEAD", "OPTIONS", "DELETE", "PATCH"} {
+		for _, f := range forms {
+			var verifierSaw []string
+			var nextRan int
+			var nextCtx context.Context
+			h := &auth.Handler{
+				Verify: func(ctx context.Context, token string) ([]auth.Permission, error) {
+					verifierSaw = append(verifierSaw, token)
+					if v == 8 {
+						return nil, errors.New("rejected")
+					}
+					return subset(v), nil
+				},
+				Next: func(w http.ResponseWriter, rq *http.Request) {
+					nextRan++
+					nextCtx = rq.Context()
+					w.WriteHeader(200)
+				},
+			}
+			url := "http://x/rpc"
+			if f.query != "" {
+				url += "?token=" + f.query
+			}
+			req := httptest.NewRequest(hm, url, strings.NewReader("{}"))
+			if f.header != "" {
+				req.Header.Set("Authorization", f.header)
+			}
+			rec := httptest.NewRecorder()
+			h.ServeHTTP(rec, req)
+			r.Obs("handler_cases", 1)
+			key := fmt.Sprintf("%s form=%s verif=%d", hm, f.name, v)
+			r.AddKey(key)
+			status := rec.Code
+			switch {
+			case f.name == "absent":
+				att, _ := false, []auth.Permission(nil)
+				if nextCtx != nil {
+					att, _ = attachedSet(nextCtx)
 				}
-				return subset(v), nil
-			},
-			Next: func(w http.ResponseWriter, rq *http.Request) {
-				nextRan++
-				nextCtx = rq.Context()
-				w.WriteHeader(200)
-			},
-		}
-		url := "http://x/rpc"
-		if f.query != "" {
-			url += "?token=" + f.query
-		}
-		req := httptest.NewRequest("POST", url, strings.NewReader("{}"))
-		if f.header != "" {
-			req.Header.Set("Authorization", f.header)
-		}
-		rec := httptest.NewRecorder()
-		h.ServeHTTP(rec, req)
-		r.Obs("handler_cases", 1)
-		key := fmt.Sprintf("form=%s verif=%d", f.name, v)
-		r.AddKey(key)
-		status := rec.Code
-		switch {
-		case f.name == "absent":
-			att, _ := false, []auth.Permission(nil)
-			if nextCtx != nil {
-				att, _ = attachedSet(nextCtx)
-			}
-			if nextRan != 1 || len(verifierSaw) != 0 || att || status == 401 {
-				r.Violate("auth-tokenless", "%s: token-less request must pass through with nothing attached: next=%d verifier=%v attached=%v status=%d", key, nextRan, verifierSaw, att, status)
-			}
-		case f.malformed:
-			if status != 401 || nextRan != 0 {
-				r.Violate("auth-malformed", "%s: malformed token must get 401 without next: status=%d next=%d", key, status, nextRan)
-			}
-		default:
-			if f.lenient && status == 401 && nextRan == 0 {
-				continue // treated as malformed: acceptable
-			}
-			if len(verifierSaw) != 1 || verifierSaw[0] != f.expectToken {
-				r.Violate("auth-token", "%s: verifier must see exactly %q, saw %q", key, f.expectToken, verifierSaw)
-				continue
-			}
-			if v == 8 {
+				if nextRan != 1 || len(verifierSaw) != 0 || att || status == 401 {
+					r.Violate("auth-tokenless", "%s: token-less request must pass through with nothing attached: next=%d verifier=%v attached=%v status=%d", key, nextRan, verifierSaw, att, status)
+				}
+			case f.malformed:
 				if status != 401 || nextRan != 0 {
-					r.Violate("auth-rejected", "%s: rejected token must get 401 without next: status=%d next=%d", key, status, nextRan)
+					r.Violate("auth-malformed", "%s: malformed token must get 401 without next: status=%d next=%d", key, status, nextRan)
 				}
-				continue
-			}
-			if nextRan != 1 || status == 401 {
-				r.Violate("auth-accepted", "%s: accepted token must reach next exactly once: next=%d status=%d", key, nextRan, status)
-				continue
-			}
-			att, set := attachedSet(nextCtx)
-			want := subset(v)
-			if len(want) == 3 {
-				// full set attached is indistinguishable from "not attached" under defaults=all; check with defaults=nil
-				att = true
-				set = nil
-				for _, pp := range permU {
-					if auth.HasPerm(nextCtx, nil, pp) {
-						set = append(set, pp)
+			default:
+				if f.lenient && status == 401 && nextRan == 0 {
+					continue // treated as malformed: acceptable
+				}
+				if len(verifierSaw) != 1 || verifierSaw[0] != f.expectToken {
+					r.Violate("auth-token", "%s: verifier must see exactly %q, saw %q", key, f.expectToken, verifierSaw)
+					continue
+				}
+				if v == 8 {
+					if status != 401 || nextRan != 0 {
+						r.Violate("auth-rejected", "%s: rejected token must get 401 without next: status=%d next=%d", key, status, nextRan)
+					}
+					continue
+				}
+				if nextRan != 1 || status == 401 {
+					r.Violate("auth-accepted", "%s: accepted token must reach next exactly once: next=%d status=%d", key, nextRan, status)
+					continue
+				}
+				att, set := attachedSet(nextCtx)
+				want := subset(v)
+				if len(want) == 3 {
+					// full set attached is indistinguishable from "not attached" under defaults=all; check with defaults=nil
+					att = true
+					set = nil
+					for _, pp := range permU {
+						if auth.HasPerm(nextCtx, nil, pp) {
+							set = append(set, pp)
+						}
 					}
 				}
-			}
-			if !att || permStr(set) != permStr(want) {
-				r.Violate("auth-attach", "%s: next must see exactly %s attached, saw attached=%v %s", key, permStr(want), att, permStr(set))
+				if !att || permStr(set) != permStr(want) {
+					r.Violate("auth-attach", "%s: next must see exactly %s attached, saw attached=%v %s", key, permStr(want), att, permStr(set))
+				}
 			}
 		}
 	}
-	r.Sample(map[string]interface{}{"verifier_outcome": v, "forms": len(forms)})
+	r.Sample(map[string]interface{}{"verifier_outcome": v, "forms": len(forms), "http_methods": 7})
 }
 
 // runHandlerSeq: one Handler instance sees the same tokens repeatedly (as a long-lived server does);
@@ -540,4 +547,78 @@ func (p c19) runDerived(sc core.Scenario, r *core.R) {
 	}
 	r.Key(fmt.Sprintf("derived def=%s", permStr(def)), true)
 	r.Sample(map[string]interface{}{"defaults": permStr(def), "scenario": "second WithPerm on a derived context, 8x8 parent/child sets", "impl_invocations": atomic.LoadInt64(&impl.n)})
+}
+
+// a universe of seven permissions (real deployments have more than the three of the small scenarios)
+type c19BigImpl struct{ n [7]int64 }
+
+func (i *c19BigImpl) M0(ctx context.Context) error { atomic.AddInt64(&i.n[0], 1); return nil }
+func (i *c19BigImpl) M1(ctx context.Context) error { atomic.AddInt64(&i.n[1], 1); return nil }
+func (i *c19BigImpl) M2(ctx context.Context) error { atomic.AddInt64(&i.n[2], 1); return nil }
+func (i *c19BigImpl) M3(ctx context.Context) error { atomic.AddInt64(&i.n[3], 1); return nil }
+func (i *c19BigImpl) M4(ctx context.Context) error { atomic.AddInt64(&i.n[4], 1); return nil }
+func (i *c19BigImpl) M5(ctx context.Context) error { atomic.AddInt64(&i.n[5], 1); return nil }
+func (i *c19BigImpl) M6(ctx context.Context) error { atomic.AddInt64(&i.n[6], 1); return nil }
+
+type c19BigProxy struct {
+	M0 func(ctx context.Context) error `perm:"p0"`
+	M1 func(ctx context.Context) error `perm:"p1"`
+	M2 func(ctx context.Context) error `perm:"p2"`
+	M3 func(ctx context.Context) error `perm:"p3"`
+	M4 func(ctx context.Context) error `perm:"p4"`
+	M5 func(ctx context.Context) error `perm:"p5"`
+	M6 func(ctx context.Context) error `perm:"p6"`
+}
+
+// runBigSet: every subset of a seven-permission universe attached in every rotation (the position of a
+// permission inside the attached slice must not matter), every method called: allowed iff its permission is
+// in the attached set; also as defaults with nothing attached.
+func (p c19) runBigSet(sc core.Scenario, r *core.R) {
+	var u []auth.Permission
+	for i := 0; i < 7; i++ {
+		u = append(u, auth.Permission(fmt.Sprintf("p%d", i)))
+	}
+	part := sc.I("part")
+	cases := 0
+	for mask := part; mask < 128; mask += 4 {
+		var set []auth.Permission
+		for i := 0; i < 7; i++ {
+			if mask&(1<<i) != 0 {
+				set = append(set, u[i])
+			}
+		}
+		for rot := 0; rot < len(set) || rot == 0; rot++ {
+			att := append(append([]auth.Permission{}, set[rot:]...), set[:rot]...)
+			for mode := 0; mode < 2; mode++ {
+				impl := &c19BigImpl{}
+				var px c19BigProxy
+				var ctx context.Context
+				if mode == 0 {
+					auth.PermissionedProxy(u, nil, impl, &px)
+					ctx = auth.WithPerm(context.Background(), att)
+				} else {
+					auth.PermissionedProxy(u, att, impl, &px)
+					ctx = context.Background()
+				}
+				fns := []func(context.Context) error{px.M0, px.M1, px.M2, px.M3, px.M4, px.M5, px.M6}
+				for i, fn := range fns {
+					err := fn(ctx)
+					ran := atomic.LoadInt64(&impl.n[i])
+					want := mask&(1<<i) != 0
+					cases++
+					label := fmt.Sprintf("%s set %v (7-permission universe), method needing p%d", []string{"attached", "default"}[mode], att, i)
+					if want && (err != nil || ran != 1) {
+						r.Violate("perm-refused", "%s: the caller holds the permission but the call was refused (err %v, implementation ran %d times)", label, err, ran)
+					}
+					if !want && (err == nil || ran != 0) {
+						r.Violate("perm-bypass", "%s: the caller lacks the permission but err=%v and the implementation ran %d times", label, err, ran)
+					}
+				}
+			}
+		}
+		r.AddKey(fmt.Sprintf("bigset mask=%d", mask))
+	}
+	r.Obs("calls", int64(cases))
+	r.Key(fmt.Sprintf("bigset part=%d", part), true)
+	r.Sample(map[string]interface{}{"scenario": "all subsets x rotations of a seven-permission universe, attached and as defaults", "cases": cases})
 }
